@@ -502,7 +502,9 @@ def ddmin(ops, fails, keep_prefix=0, max_tests=400, budget_s=None):
     head, body = ops[:keep_prefix], list(ops[keep_prefix:])
     tests = 0
     n = 2
-    t_end = time.time() + (DDMIN_BUDGET_S if budget_s is None else budget_s)
+    t_start = time.time()
+    len0 = len(body)
+    t_end = t_start + (DDMIN_BUDGET_S if budget_s is None else budget_s)
     while len(body) >= 2 and tests < max_tests and time.time() < t_end:
         size = max(1, len(body) // n)
         reduced = False
@@ -520,6 +522,8 @@ def ddmin(ops, fails, keep_prefix=0, max_tests=400, budget_s=None):
             if size == 1:
                 break
             n = min(len(body), n * 2)
+    if os.environ.get("VERIF_TRACE_TIME"):
+        log("ddmin: %d -> %d ops, %d tests, %.1fs" % (len0, len(body), tests, time.time() - t_start))
     return head + body
 
 
@@ -699,7 +703,14 @@ class Ctx:
         }
         ev["coverage"]["known_findings_reproduced"] = self.known_hits
         ev["coverage"]["broken"] = self.broken
-        p = os.path.join(VERIF, "evidence", self.pid + ".json")
+        # /verif/evidence describes /repo itself; a run against a scratch tree (VERIF_REPO: seeded
+        # changes, sub-agent worktrees) leaves it alone and writes under .build/
+        evdir = os.path.join(VERIF, "evidence")
+        if os.path.realpath(REPO) != "/repo":
+            evdir = os.path.join(VERIF, ".build", "evidence-scratch")
+            ev["coverage"]["repo"] = REPO
+        os.makedirs(evdir, exist_ok=True)
+        p = os.path.join(evdir, self.pid + ".json")
         with open(p + ".tmp", "w") as f:
             json.dump(ev, f, indent=1, default=str)
         os.replace(p + ".tmp", p)
